@@ -349,6 +349,30 @@ func Run(t *testing.T, c Case, own string, opt Options) (res result) {
 			}
 		}()
 		defer close(done)
+		defer func() {
+			// synctest reports a bubble in which every goroutine is durably
+			// blocked (e.g. an iterator Close waiting for the parked collector
+			// to take a channel hand-off) by panicking in the caller. The
+			// unchanged code never waits for the collector: for C10 this is a
+			// request that is never granted. The goroutines of the bubble are
+			// lost, so the process ends here like in the hang case.
+			r := recover()
+			if r == nil {
+				return
+			}
+			if !strings.Contains(fmt.Sprint(r), "all goroutines in bubble are blocked") {
+				panic(r)
+			}
+			msg := fmt.Sprintf("the case cannot finish: every goroutine (the case's operations, the parked graveyard collector) is blocked forever: %v - a write transaction, iterator Close or collector round waits for something that is never granted", r)
+			if own == "C10" {
+				path := vk.WriteReplay("C10", HangTest, c, "bubble-deadlock", msg)
+				fmt.Printf("VERIF-VIOLATION property=C10 test=%s sig=bubble-deadlock replay=%s\n", HangTest, path)
+				os.Stdout.Sync()
+				os.Exit(1)
+			}
+			fmt.Printf("VERIF-HANG (owned by C10, this run is %s): %s\n", own, firstN(msg, 600))
+			os.Exit(3)
+		}()
 		synctest.Test(t, func(*testing.T) {
 			res = run(c, own, opt)
 		})
@@ -1077,6 +1101,12 @@ func (in *interp) write(o Op, w *wtxn) string {
 		in.viol("C03", "read-your-writes", "after DeleteAll NumObjects in the transaction is %d", n)
 	}
 	// ---- rejected operations change nothing
+	if !success && expectNoChange && in.own == "C09" {
+		// the by-revision listing of the transaction must still be exactly the
+		// live objects (C09's claim; in C09's own runs it is judged before the
+		// fingerprint comparison of C03 below)
+		in.checkRevisions(t, w.txn, ts, ts)
+	}
 	if !success && expectNoChange {
 		if after := lightDigest(tbl, w.txn); after != before {
 			in.viol("C03", "reject-changed", "%s rejected with %s changed the table as seen by the transaction", opNames[o.K], wantErr)
